@@ -25,7 +25,8 @@ META = {
             "of Wire.tla; player-info updates must carry each entry's action data in the protocol's fixed order for "
             "every action subset and supply order. mathutil.FloorDiv is tabulated against its defining property.",
     "design_ref": "DESIGN.md section 4, C07",
-    "level_note": "Field values are sampled per shape class (seeded), not all values. JSON chat components (before "
+    "level_note": "A sample of packet objects of every kind (all plugin channel classes) is additionally encoded "
+                  "for every protocol of its shape in sequence, newest first, with the same object. Field values are sampled per shape class (seeded), not all values. JSON chat components (before "
                   "1.20.3 and in the login state) are opaque: the harness supplies the JSON text and the layout only "
                   "fixes its framing. NBT components (1.20.3+: disconnect in play/config, player-info display names) are "
                   "built by the proxy from a text component with 0 or 2 children and are decoded by an NBT reader written "
@@ -58,6 +59,8 @@ def run(ctx):
 
     ctx.harness("./c07", "TestEncode", timeout=900)
     st = json.load(open(ctx.path("stats.json")))
+    if st["reused_encodes"] < 100:
+        raise vlib.ToolError("reuse phase too small: %d" % st["reused_encodes"])
     if st["packets"] != len(shapes):
         raise vlib.ToolError("harness encoded %d of %d shapes" % (st["packets"], len(shapes)))
     lines = vlib.read_ndjson(ctx.path("trace.ndjson"))
@@ -87,6 +90,7 @@ def run(ctx):
         "packets_encoded": st["packets"],
         "per_packet": st["per_packet"],
         "floordiv_cells": st["floordiv"],
+        "encodes_of_a_reused_packet_object": st["reused_encodes"],
         "protocols": sorted(set(x["v"] for x in lines if x["ev"] == "pkt")),
         "distinct_nontrivial": nontrivial,
         "rule": "a case is non-trivial when the layout depends on the protocol or on an optional/ordering decision: "
@@ -146,6 +150,8 @@ def report(ctx, bad):
         kinds = sorted(set(textkind(e["dnc"]) for e in bad["f"]["entries"] if "dnc" in e))
         if kinds and kinds != ["plain"]:
             detail += ":displayname:" + "+".join(kinds)
+    if bad.get("reuse", 0) > 1:
+        detail += ":reused-object"
     ctx.finding("%s@%s%s" % (pkt, vclass(pkt, v), detail),
                 "%s for protocol %d (shape %s): the bytes written are not the vanilla layout of the values meant"
                 % (pkt, v, p), slim(bad))
